@@ -22,3 +22,10 @@ Theorem C01_leader_backed : forall s g h v d, en_role s <> Leader ->
   en_role (fst (estep s (ETimeout g h v d))) = Leader -> v = 0 \/ v + 1 < 2 * (g + 1).
 Proof. exact leader_backed. Qed.
 Print Assumptions C01_leader_backed.
+
+(* the abstract Raft system: in every reachable state, one leader per term *)
+From DE Require Import AbstractRaft proofs.AR_election.
+Theorem C01_election_safety : forall nodes s, reach nodes s ->
+  forall a b t, In (a, t) (g_leaders s) -> In (b, t) (g_leaders s) -> a = b.
+Proof. exact election_safety. Qed.
+Print Assumptions C01_election_safety.
